@@ -317,9 +317,6 @@ func (propC02) Check(t *testing.T, p *Plan, st *Stats) *Violation {
 	fmt.Sscan(p.Tags["range"], &rng)
 	fmt.Sscan(p.Tags["offset"], &off)
 	fmt.Sscan(p.Tags["offset_b"], &offB)
-	viol := func(clause, exp, obs string) *Violation {
-		return &Violation{Property: "C02", Clause: clause, Expected: exp, Observed: obs, Detail: "query " + p.Query + " kind=" + kind}
-	}
 	if !parses(p.Query) {
 		if st != nil {
 			st.Skipped++
@@ -328,11 +325,27 @@ func (propC02) Check(t *testing.T, p *Plan, st *Stats) *Violation {
 	}
 	o := Exec(t, p, 0, ExecOpts{})
 	checkHarnessLimit(o)
-	want := RefSelect(&p.World, ms)
-	wantCount := map[string]int{}
-	for _, id := range want {
-		wantCount[id]++
+	v := c02Judge(p, o, st, ms, msB, kind, rng, off, offB, false)
+	if v != nil && p.Tags["changed"] != "" && len(o.Lists) >= 2 {
+		// Two selections listed the inventory; if they did so concurrently, which of
+		// them saw the inventory after the change is not determined.
+		if c02Judge(p, o, nil, ms, msB, kind, rng, off, offB, true) == nil {
+			if st != nil {
+				st.Probe("accepted_with_swapped_inventory_views")
+			}
+			return nil
+		}
 	}
+	return v
+}
+
+// c02Judge judges one outcome. swap: the first selection saw the changed inventory, the second the original one.
+func c02Judge(p *Plan, o *Outcome, st *Stats, ms, msB []Matcher, kind string, rng, off, offB int64, swap bool) *Violation {
+	viol := func(clause, exp, obs string) *Violation {
+		return &Violation{Property: "C02", Clause: clause, Expected: exp, Observed: obs, Detail: "query " + p.Query + " kind=" + kind}
+	}
+	worldA := &p.World
+	want := RefSelect(worldA, ms)
 	nSel := 1
 	worldB := &p.World
 	if id := p.Tags["changed"]; id != "" && len(p.Faults) > 0 && len(o.Lists) >= 2 {
@@ -342,6 +355,14 @@ func (propC02) Check(t *testing.T, p *Plan, st *Stats) *Violation {
 			c.State, c.Status, c.Names = ChangedState, ChangedStatus, []string{"/" + ChangedName(id)}
 		}
 		worldB = &w2
+		if swap {
+			worldA, worldB = worldB, worldA
+			want = RefSelect(worldA, ms)
+		}
+	}
+	wantCount := map[string]int{}
+	for _, id := range want {
+		wantCount[id]++
 	}
 	if kind == "metric_binop" {
 		nSel = 2
@@ -447,7 +468,7 @@ func (propC02) Check(t *testing.T, p *Plan, st *Stats) *Violation {
 		winB = window{b, b, floorSec(p.Params.End - offB)}
 	}
 	inA, inB := map[string]bool{}, map[string]bool{}
-	for _, id := range RefSelect(&p.World, ms) {
+	for _, id := range RefSelect(worldA, ms) {
 		inA[id] = true
 	}
 	if kind == "metric_binop" {
